@@ -64,6 +64,8 @@ st2 = make(struct { S struct { A []int64 } })
 	}))
 	must(e.Define("swap", func(p, q interface{}) (interface{}, interface{}) { return q, p }))
 	must(e.Define("arr2", func(a [2]int64) int64 { return a[0] + a[1] }))
+	must(e.Define("parr2", func(a *[2]int64) int64 { return a[0] + a[1] }))
+	must(e.Define("hparr", &struct{ P *[2]int64 }{}))
 	must(e.Define("harr", [3]int64{1, 2, 3}))
 	must(e.Define("harrs", [][3]int64{{1, 2, 3}}))
 	must(e.Define("hemb", &npOuter{}))
@@ -205,6 +207,10 @@ var degenerateForms = []string{
 	"hemb.X", "hemb.Y", "hemb.X = 1", "hemb.Y = 1\nhemb.Y", "hemb.Get()", "hembv.X", "hembv.Y", "hembv.X = 1", "hembs[0].X", "hembs[0].X = 2", "toString(hemb)", "hemb == hemb", "for q in hembs { q.X }", "x3 = hemb\nx3.X", "[hemb][0].X", "hemb.npInner", "hemb.npInner.X",
 	// types too large for a channel element (64 KiB: three levels of 16 fields over string) in every position a type expression stands in
 	"make(type XA, make(struct {A0 string, A1 string, A2 string, A3 string, A4 string, A5 string, A6 string, A7 string, A8 string, A9 string, A10 string, A11 string, A12 string, A13 string, A14 string, A15 string}))\nmake(type XB, make(struct {B0 XA, B1 XA, B2 XA, B3 XA, B4 XA, B5 XA, B6 XA, B7 XA, B8 XA, B9 XA, B10 XA, B11 XA, B12 XA, B13 XA, B14 XA, B15 XA}))\nmake(type XC, make(struct {C0 XB, C1 XB, C2 XB, C3 XB, C4 XB, C5 XB, C6 XB, C7 XB, C8 XB, C9 XB, C10 XB, C11 XB, C12 XB, C13 XB, C14 XB, C15 XB}))\ncc = make(chan XC)", "make(type XA, make(struct {A0 string, A1 string, A2 string, A3 string, A4 string, A5 string, A6 string, A7 string, A8 string, A9 string, A10 string, A11 string, A12 string, A13 string, A14 string, A15 string}))\nmake(type XB, make(struct {B0 XA, B1 XA, B2 XA, B3 XA, B4 XA, B5 XA, B6 XA, B7 XA, B8 XA, B9 XA, B10 XA, B11 XA, B12 XA, B13 XA, B14 XA, B15 XA}))\nmake(type XC, make(struct {C0 XB, C1 XB, C2 XB, C3 XB, C4 XB, C5 XB, C6 XB, C7 XB, C8 XB, C9 XB, C10 XB, C11 XB, C12 XB, C13 XB, C14 XB, C15 XB}))\ncc = make(chan XC, 1)", "make(type XA, make(struct {A0 string, A1 string, A2 string, A3 string, A4 string, A5 string, A6 string, A7 string, A8 string, A9 string, A10 string, A11 string, A12 string, A13 string, A14 string, A15 string}))\nmake(type XB, make(struct {B0 XA, B1 XA, B2 XA, B3 XA, B4 XA, B5 XA, B6 XA, B7 XA, B8 XA, B9 XA, B10 XA, B11 XA, B12 XA, B13 XA, B14 XA, B15 XA}))\nmake(type XC, make(struct {C0 XB, C1 XB, C2 XB, C3 XB, C4 XB, C5 XB, C6 XB, C7 XB, C8 XB, C9 XB, C10 XB, C11 XB, C12 XB, C13 XB, C14 XB, C15 XB}))\nss = make([]chan XC, 1)", "make(type XA, make(struct {A0 string, A1 string, A2 string, A3 string, A4 string, A5 string, A6 string, A7 string, A8 string, A9 string, A10 string, A11 string, A12 string, A13 string, A14 string, A15 string}))\nmake(type XB, make(struct {B0 XA, B1 XA, B2 XA, B3 XA, B4 XA, B5 XA, B6 XA, B7 XA, B8 XA, B9 XA, B10 XA, B11 XA, B12 XA, B13 XA, B14 XA, B15 XA}))\nmake(type XC, make(struct {C0 XB, C1 XB, C2 XB, C3 XB, C4 XB, C5 XB, C6 XB, C7 XB, C8 XB, C9 XB, C10 XB, C11 XB, C12 XB, C13 XB, C14 XB, C15 XB}))\nmm = make(map[string]chan XC)", "make(type XA, make(struct {A0 string, A1 string, A2 string, A3 string, A4 string, A5 string, A6 string, A7 string, A8 string, A9 string, A10 string, A11 string, A12 string, A13 string, A14 string, A15 string}))\nmake(type XB, make(struct {B0 XA, B1 XA, B2 XA, B3 XA, B4 XA, B5 XA, B6 XA, B7 XA, B8 XA, B9 XA, B10 XA, B11 XA, B12 XA, B13 XA, B14 XA, B15 XA}))\nmake(type XC, make(struct {C0 XB, C1 XB, C2 XB, C3 XB, C4 XB, C5 XB, C6 XB, C7 XB, C8 XB, C9 XB, C10 XB, C11 XB, C12 XB, C13 XB, C14 XB, C15 XB}))\npp = new(chan XC)", "make(type XA, make(struct {A0 string, A1 string, A2 string, A3 string, A4 string, A5 string, A6 string, A7 string, A8 string, A9 string, A10 string, A11 string, A12 string, A13 string, A14 string, A15 string}))\nmake(type XB, make(struct {B0 XA, B1 XA, B2 XA, B3 XA, B4 XA, B5 XA, B6 XA, B7 XA, B8 XA, B9 XA, B10 XA, B11 XA, B12 XA, B13 XA, B14 XA, B15 XA}))\nmake(type XC, make(struct {C0 XB, C1 XB, C2 XB, C3 XB, C4 XB, C5 XB, C6 XB, C7 XB, C8 XB, C9 XB, C10 XB, C11 XB, C12 XB, C13 XB, C14 XB, C15 XB}))\nss = []chan XC{}", "make(type XA, make(struct {A0 string, A1 string, A2 string, A3 string, A4 string, A5 string, A6 string, A7 string, A8 string, A9 string, A10 string, A11 string, A12 string, A13 string, A14 string, A15 string}))\nmake(type XB, make(struct {B0 XA, B1 XA, B2 XA, B3 XA, B4 XA, B5 XA, B6 XA, B7 XA, B8 XA, B9 XA, B10 XA, B11 XA, B12 XA, B13 XA, B14 XA, B15 XA}))\nmake(type XC, make(struct {C0 XB, C1 XB, C2 XB, C3 XB, C4 XB, C5 XB, C6 XB, C7 XB, C8 XB, C9 XB, C10 XB, C11 XB, C12 XB, C13 XB, C14 XB, C15 XB}))\nmm = map[string]chan XC{}", "make(type XA, make(struct {A0 string, A1 string, A2 string, A3 string, A4 string, A5 string, A6 string, A7 string, A8 string, A9 string, A10 string, A11 string, A12 string, A13 string, A14 string, A15 string}))\nmake(type XB, make(struct {B0 XA, B1 XA, B2 XA, B3 XA, B4 XA, B5 XA, B6 XA, B7 XA, B8 XA, B9 XA, B10 XA, B11 XA, B12 XA, B13 XA, B14 XA, B15 XA}))\nmake(type XC, make(struct {C0 XB, C1 XB, C2 XB, C3 XB, C4 XB, C5 XB, C6 XB, C7 XB, C8 XB, C9 XB, C10 XB, C11 XB, C12 XB, C13 XB, C14 XB, C15 XB}))\nmake(type XD, make(chan XC))", "make(type XA, make(struct {A0 string, A1 string, A2 string, A3 string, A4 string, A5 string, A6 string, A7 string, A8 string, A9 string, A10 string, A11 string, A12 string, A13 string, A14 string, A15 string}))\nmake(type XB, make(struct {B0 XA, B1 XA, B2 XA, B3 XA, B4 XA, B5 XA, B6 XA, B7 XA, B8 XA, B9 XA, B10 XA, B11 XA, B12 XA, B13 XA, B14 XA, B15 XA}))\nmake(type XC, make(struct {C0 XB, C1 XB, C2 XB, C3 XB, C4 XB, C5 XB, C6 XB, C7 XB, C8 XB, C9 XB, C10 XB, C11 XB, C12 XB, C13 XB, C14 XB, C15 XB}))\nfunc() { return make(chan XC) }()", "make(type XA, make(struct {A0 string, A1 string, A2 string, A3 string, A4 string, A5 string, A6 string, A7 string, A8 string, A9 string, A10 string, A11 string, A12 string, A13 string, A14 string, A15 string}))\nmake(type XB, make(struct {B0 XA, B1 XA, B2 XA, B3 XA, B4 XA, B5 XA, B6 XA, B7 XA, B8 XA, B9 XA, B10 XA, B11 XA, B12 XA, B13 XA, B14 XA, B15 XA}))\nmake(type XC, make(struct {C0 XB, C1 XB, C2 XB, C3 XB, C4 XB, C5 XB, C6 XB, C7 XB, C8 XB, C9 XB, C10 XB, C11 XB, C12 XB, C13 XB, C14 XB, C15 XB}))\nvv = make(XC)\nlen([vv])",
+	// the first store into a nil map under a key that is never found again (NaN); pointer-to-array parameters and fields
+	"nm = make([]map[float64]int64, 1)\nnm[0][0.0 / 0.0] += 1", "nm = make([]map[float64]int64, 1)\nnm[0][0.0 / 0.0]++\nnm", "nm = make([]map[float64]int64, 1)\n[nm[0][0.0 / 0.0] = 1]",
+	"nm = make([]map[float64]string, 1)\nx9 = (nm[0][0.0 / 0.0] = \"v\")\nx9", "nm = make([]map[interface]int64, 1)\nnm[0][0.0 / 0.0] += 2\nlen(nm[0])", "mm = {}\nmm[0.0 / 0.0] = 1\nmm[0.0 / 0.0] += 1\nlen(mm)",
+	"st9 = make(struct { M map[float64]int64 })\nst9.M[0.0 / 0.0] += 1", "parr2([1])", "parr2([1, 2])", "parr2(make([]int64, 1))", "parr2(make([]int64, 2))", "parr2(make([]int64, 3))", "hparr.P = make([]int64, 1)", "hparr.P = [1, 2]\nhparr.P",
 	"func rec(n) { return rec(n) }", "type T struct", "struct", "chan", "map", "len", "return 1, ", "throw", "break", "continue", "return",
 }
 
